@@ -40,7 +40,11 @@ def consume_c04(ctx, lines, results):
                        kind_at_fault=(case.get("s") or {}).get("kind", case.get("shape", "?")),
                        arg_class=arg.get("k", case.get("via", "?")),
                        divergence="fatal" if res["crash"] == "died" else "hang", frame=res.get("frame", ""))
-            if "stack overflow" in res.get("detail", "") or "goroutine stack exceeds" in res.get("detail", ""):
+            if res["crash"] == "hang":
+                # which value was handed in is accidental: one signature per operation for "does not return"
+                sjson = json.dumps(case.get("s") or {})
+                sig.update(arg_class="any", frame="", kind_at_fault="scope" if '"kind": "scope"' in sjson else sig["kind_at_fault"])
+            elif "stack overflow" in res.get("detail", "") or "goroutine stack exceeds" in res.get("detail", ""):
                 # the frame on top when the limit is hit, and the position of the runaway schema, are accidental:
                 # one signature per operation for "the recursion does not end"
                 sjson = json.dumps(case.get("s") or {})
@@ -110,10 +114,19 @@ def run(ctx):
                 "(schema shape, op, argument class, declared outcome)")
     base.bind_checks(ctx)
     path, lines, r = base.enumerate_vectors(ctx, "schema_c04_thorough.cfg" if thorough else "schema_c04_quick.cfg", "c04")
-    results = base.run_driver(ctx, path, "c04")
-    if len(results) != len(lines):
-        raise common.Infra("driver returned %d results for %d vectors" % (len(results), len(lines)))
-    consume_c04(ctx, lines, results)
+    # vectors over chains of single-property objects (scope root id LOOP...): "does not return" is a possible
+    # outcome there, so they get their own run with a short per-case bound (a hang then costs seconds, and the
+    # supervisor attributes it to exactly that case and re-runs it alone twice)
+    loops = [l for l in lines if "LOOP0" in l]
+    rest = [l for l in lines if "LOOP0" not in l]
+    rpath, lpath = os.path.join(ctx.tmp, "vec-c04-rest.ndjson"), os.path.join(ctx.tmp, "vec-c04-loops.ndjson")
+    for pth, ls in ((rpath, rest), (lpath, loops)):
+        with open(pth, "w") as f:
+            f.write("\n".join(ls) + ("\n" if ls else ""))
+    consume_c04(ctx, rest, base.run_driver(ctx, rpath, "c04"))
+    if loops:
+        consume_c04(ctx, loops, base.run_driver(ctx, lpath, "c04-loops", jobs=min(16, common.NCPU), case_timeout="1s"))
+    ctx.extra["shorthand_chain_vectors"] = len(loops)
     ctx.traces += len(lines)
     ctx.exhaustive = True
     for i in (0, len(lines) // 2, len(lines) - 1):
